@@ -41,7 +41,10 @@ func runC04(cases string, res *Result) {
 			return
 		}
 		res.Evaluations++
-		diff, _ := compareTokens(c, src)
+		diff := ""
+		if c.str("lex") != "skip" {
+			diff, _ = compareTokens(c, src)
+		}
 		if diff != "" {
 			kind := "disagreement"
 			if strings.Contains(diff, "PANIC") {
